@@ -8,14 +8,16 @@ See Also:
 
 from __future__ import annotations
 
+from binascii import b2a_base64
+
 __all__ = ['modutf7_encode', 'modutf7_decode']
 
 
 def _modified_b64encode(src: str) -> bytes:
-    # Inspired by Twisted Python's implementation:
-    #   https://twistedmatrix.com/trac/browser/trunk/LICENSE
-    src_utf7 = src.encode('utf-7')
-    return src_utf7[1:-1].replace(b'/', b',')
+    # The utf-7 codec leaves some characters unencoded, e.g. tab, CR and LF.
+    src_b64 = b2a_base64(src.encode('utf-16-be', 'surrogatepass'),
+                         newline=False)
+    return src_b64.rstrip(b'=').replace(b'/', b',')
 
 
 def _modified_b64decode(src: bytes) -> str:
